@@ -40,23 +40,24 @@
             (`PosLay` alone is over-approximate: `posLay_overapprox`, witness `a#b c`.)
             `FLayout.lean`: `gap_layout`: between two tokens with only dropped NEWLINEs between
             them, the text -- if it holds no body -- satisfies `Spec.isLayout`.
-            Not said when the cursor left the line (`B > |L0|`: the non-strict skip over a
-            missing here-document, witness `cat <<E` with `strict = false`).
-    TILING  (residual R2, one run, `FTiled.lean`): if no leaf is flagged as a body, no leaf is
-            empty (D19) and `B ≤ |L0|`: the leaves in tree order tile the line (`Tiled`), hence
+    TILING  (residual R2, one run, `FTiled.lean`): if no leaf is flagged as a body and no leaf is
+            empty (D19): the leaves in tree order tile the line (`Tiled`), hence
             `run_gapsOK`: `Spec.gapsOK`, the walker of the executable `Spec.coverOK`, run over the
             leaves of the run's tree on the run's line reports no `leaf-overlap` and no
             `gap-not-layout`.
 
-  R2 for the WHOLE result of `parse` is NOT proved.  Proved towards it (`Props/C05/FCover.lean`):
-  every signature of `Spec.gapsOK` on a start-sorted list, hence of `Spec.coverOK` under the
-  decidable per-input condition `SortOK` on `Array.qsort` (the kernel cannot run `qsort`;
-  evaluated `true` on 5912 inputs in `FValidate.lean`), has an order-free geometric reason
-  (`gapsOK_sound`, `coverOK_sound`).  Missing, stated plainly: (1) the glue between consecutive
-  runs: that `nextIndex part` is the end of the last token of the run that is not a dropped
-  NEWLINE (no development supplies where the ROOT of a top-level tree ends); (2) for runs with
-  here-documents: that a redirect extended over its body ends where the body ends (`HereOK` does
-  not say so; `attach` does) and the classification of the D11 overlaps.
+  R2 for the WHOLE result of `parse`: see `Props/C05Cover.lean` (`C05_coverOK_plain_nil`:
+  `Spec.coverOK s parts = []` for results without here-document body leaves and without D19,
+  under the decidable conditions `SortOK`, `plainLeaves`, `rootsAtLeaves`) and
+  `Props/C05/FCover.lean` (`coverOK_sound`: under `SortOK` every signature of `Spec.coverOK` has
+  an order-free geometric reason; `C05_coverOK_conditional`).  Not proved: `rootsAtLeaves` as a
+  theorem (where the ROOT of a top-level tree ends: `Props/C03/RE` proves `EG` only), results with
+  here-document bodies (an extended redirect ends where its body ends; classification of the
+  D11 overlaps), `Array.qsort` (`SortOK`).
+  The chain survives the "dead" state (cursor beyond the line after the non-strict skip over a
+  missing here-document, witness `cat <<E`, `strict = false`): the log is then the chain followed
+  by end-of-input tokens (`TGT.ChainC`, `chainC_split`), so `CharsData` carries the chain and the
+  tiling without a condition on the cursor.
 -/
 import Bashlex.Props.C05.FRun
 import Bashlex.Props.C05.FLayout
@@ -73,20 +74,22 @@ set_option linter.unusedVariables false
 
 theorem covOK_and {C1 C2 : List Token → Local → Env → Prop} (h1 : TGT.CovOK C1) (h2 : TGT.CovOK C2) :
     TGT.CovOK (fun ts l e => C1 ts l e ∧ C2 ts l e) := by
-  refine ⟨?_, ?_, ?_⟩
+  refine ⟨?_, ?_, ?_, ?_⟩
   · intro ts t L i0 len f l0 l e0 e hc a1 a2 a3 a4
     exact ⟨h1.next hc.1 a1 a2 a3 a4, h2.next hc.2 a1 a2 a3 a4⟩
-  · intro ts L c len f l0 l e0 e hc a1 a2 a3 a4
-    exact ⟨h1.gather hc.1 a1 a2 a3 a4, h2.gather hc.2 a1 a2 a3 a4⟩
-  · intro ts ts' l0 l e0 e hc a1 a2 a3 a4
-    exact ⟨h1.same hc.1 a1 a2 a3 a4, h2.same hc.2 a1 a2 a3 a4⟩
+  · intro ts L c len f l0 l e0 e hc a1 a2 a3 a4 a5
+    exact ⟨h1.gather hc.1 a1 a2 a3 a4 a5, h2.gather hc.2 a1 a2 a3 a4 a5⟩
+  · intro ts l0 l e0 e hc a1 a2 a3
+    exact ⟨h1.same hc.1 a1 a2 a3, h2.same hc.2 a1 a2 a3⟩
+  · intro ts l0 l e0 e hc a1 a2 a3
+    exact ⟨h1.deadEof hc.1 a1 a2 a3, h2.deadEof hc.2 a1 a2 a3⟩
 
 /-- coverage per position and the chain -/
 def CovB (L0 : Str) (ts : List Token) (l : Local) (e : Env) : Prop :=
   TGT.CovL L0 ts l e ∧ TGT.ChainC L0 ts l e
 
 theorem covOK_both (L0 : Str) : TGT.CovOK (CovB L0) :=
-  covOK_and (TGT.covOK_covL L0) (TGT.covOK_chain L0)
+  covOK_and (TGT.covOK_covL L0).toNew (TGT.covOK_chain L0)
 
 section
 attribute [local instance] C16.stdEnvRel
@@ -107,8 +110,8 @@ theorem npSpans_X {C : List Token → Local → Env → Prop} (hC : TGT.CovOK C)
     obtain ⟨r, l'⟩ := v
     rintro ⟨⟨h1, h2⟩, h3⟩ ⟨f1, f2⟩
     refine ⟨⟨⟨⟨⟨h1, hdel⟩, fun hlen => ?_⟩, hsorted⟩, h2⟩, h3⟩
-    exact hC.same (hcov hlen) (by rw [f1]) (Or.inl ⟨by rw [f1], rfl⟩)
-      (fun p h => by rw [f2]; exact h) (fun t ht => ht)
+    exact hC.same (hcov hlen) (by rw [f1]) (Or.inl (by rw [f1]))
+      (fun p h => by rw [f2]; exact h)
 
 end
 
@@ -149,11 +152,12 @@ def CharsData (s0 : Str) (n : Node) (ts la : List Token) (B : Nat) (st : List Re
       InLeafPos (Spec.leaves n) p ∨ PosLay (Tape.ofInput s0).line p ∨
       (∃ t ∈ ts, IsTimeTok t ∧ t.lexpos ≤ p ∧ p < t.endlexpos) ∨ InToks la p) ∧
     -- character level, tight
-    (B ≤ (Tape.ofInput s0).line.length → TGT.ChainL (Tape.ofInput s0).line st 0 (ts ++ la) B) ∧
+    (∃ la' c, (la' = la ∨ la' = []) ∧ TGT.ChainL (Tape.ofInput s0).line st 0 (ts ++ la') c ∧
+      (c = B ∨ ((Tape.ofInput s0).line.length < c ∧ (Tape.ofInput s0).line.length < B))) ∧
     -- conservation: the bodies the regions of the chain refer to are leaves
     (∀ p, InBody st p → InBodyLeaf (Spec.leaves n) p) ∧
     -- the link to the specification's walker, for a run without body leaves and without D19
-    (B ≤ (Tape.ofInput s0).line.length → (∀ x ∈ Spec.leaves n, x.2 = false) →
+    ((∀ x ∈ Spec.leaves n, x.2 = false) →
       noEmptyLeaf (Spec.leaves n) = true → TGT.Tiled (Tape.ofInput s0).line 0 (Spec.leaves n))
 
 /-- what is known of one run (see the header) -/
@@ -169,10 +173,11 @@ theorem runOKI_total {s0 : Str} {n : Node} (hlen : s0.length + 1 < 1073741824)
     exact this.append.1
   have hin := token_in_leaf hcv hs
   obtain ⟨⟨hti, hdel⟩, hcov⟩ := htl
-  obtain ⟨⟨hline, hcovp, heof⟩, ⟨_, hch, _⟩⟩ := hcov hlen
+  obtain ⟨⟨hline, hcovp, heof⟩, hcc⟩ := hcov hlen
+  obtain ⟨la', c, g1, g2, g3⟩ := TGT.chainC_split hcc hno hla
   refine ⟨ts, la, (tapeOf l e).idx, l.store, ?_⟩
   unfold CharsData
-  refine ⟨hla, hno, hs, hcv, hin, ?_, ?_, ?_, fun hb => (hch hb).toL, hbody, ?_⟩
+  refine ⟨hla, hno, hs, hcv, hin, ?_, ?_, ?_, ⟨la', c, g1, g2.toL, g3⟩, hbody, ?_⟩
   · intro t ht hne
     have hF : t.endlexpos ≤ F := hsort.2 t ht (by simp [notEOF, hne])
     obtain ⟨L, _, _, hc⟩ := hti
@@ -201,14 +206,14 @@ theorem runOKI_total {s0 : Str} {n : Node} (hlen : s0.length + 1 < 1073741824)
       · exact Or.inr (Or.inr (Or.inr ⟨t, ht, h1, h2⟩))
     · exact Or.inr (Or.inl hl)
     · exact Or.inl (hbody p hb).inLeaf
-  · intro hb hfl hne
+  · intro hfl hne
     have hnb : ∀ p, ¬ InBody l.store p := by
       intro p hp
       obtain ⟨x, hx, hxt, _⟩ := hbody p hp
       rw [hfl x hx] at hxt
       cases hxt
-    exact TGT.tiled_of_covers hnb hb (fcovers_strict hcv hne) hfl hno 0 []
-      (by simpa using (hch hb).toL) (fun t ht => by cases ht)
+    exact TGT.tiled_of_covers hnb (fcovers_strict hcv hne) hfl hno 0 []
+      (by simpa using g2.toL) (fun t ht => by cases ht)
 
 /-- **C05, character level, bodies conserved (R1 closed)**: `C05_chars_checked` without the
     "gathered here-document body" disjunct, and with the tight chain -/
@@ -256,8 +261,9 @@ def CharsNone (s0 : Str) : Prop :=
     (∀ p, p < (Tape.ofInput s0).line.length →
       PosLay (Tape.ofInput s0).line p ∨ InToks [t] p) ∧
     (B = (Tape.ofInput s0).line.length →
-      TGT.ChainL (Tape.ofInput s0).line [] 0 (lead ++ [t]) B ∧
-      Spec.isLayout ((Tape.ofInput s0).line.length + 1) (Tape.ofInput s0).line = true)
+      TGT.ChainL (Tape.ofInput s0).line [] 0 (lead ++ [t]) B) ∧
+    -- the whole line is layout in the sense of the specification (also when the cursor left it)
+    TGT.LF (Tape.ofInput s0).line 0 (Tape.ofInput s0).line.length
 
 theorem runNone_chars {s0 : Str} (hlen : s0.length + 1 < 1073741824)
     (h : RunNone (TLfin s0) s0) : CharsNone s0 := by
@@ -272,12 +278,43 @@ theorem runNone_chars {s0 : Str} (hlen : s0.length + 1 < 1073741824)
   subst hla1
   have hdrop := covers_nil_droppable hcv rfl
   obtain ⟨_, hcov⟩ := htl
-  obtain ⟨⟨hline, hcovp, heof⟩, ⟨_, hch, _⟩⟩ := hcov hlen
+  obtain ⟨⟨hline, hcovp, heof⟩, hcc⟩ := hcov hlen
+  have hch := fun hb => TGT.chainC_live hcc hb
   have hB : (Tape.ofInput s0).line.length ≤ (tapeOf l e).idx := by
     by_cases hb : (tapeOf l e).idx ≤ (Tape.ofInput s0).line.length
     · exact TGT.Chain.last_eof (hch hb) lead t rfl hty
     · omega
-  refine ⟨lead, t, (tapeOf l e).idx, hdrop, hty, hB, ?_, ?_⟩
+  have hnb : ∀ p, ¬ InBody ([] : List RedirCell) p := by
+    rintro p ⟨c, hc, _⟩; cases hc
+  have hLF : TGT.LF (Tape.ofInput s0).line 0 (Tape.ofInput s0).line.length := by
+    obtain ⟨_, ⟨pre, k, c, d1, d2, d3⟩, _⟩ := hcc
+    rw [hst] at d2
+    cases k with
+    | zero =>
+      have hpre : pre = lead ++ [t] := by simpa using d1.symm
+      rw [hpre] at d2
+      exact TGT.none_LF d2.toL hdrop hty
+    | succ k =>
+      rw [List.replicate_succ', ← List.append_assoc] at d1
+      obtain ⟨d4, _⟩ := List.append_inj' d1 rfl
+      have hk : k = 0 := by
+        cases k with
+        | zero => rfl
+        | succ k =>
+          exfalso
+          have hm : C03.Tok.eofTok ∈ lead := by rw [d4]; simp [List.replicate_succ]
+          rcases hdrop _ hm with hd | hd <;> cases hd
+      subst hk
+      have hpre : pre = lead := by simpa using d4.symm
+      rw [hpre] at d2
+      have hc : (Tape.ofInput s0).line.length < c := by
+        rcases d3 with ⟨h0, _⟩ | ⟨h1, _⟩
+        · cases h0
+        · exact h1
+      have hnl : ∀ x ∈ lead, x.ttype = some .NEWLINE :=
+        fun x hx => TGT.droppable_nl d2.toL hx (hdrop x hx)
+      exact TGT.chain_trunc hnb d2.toL hnl (Nat.zero_le _) (Nat.le_of_lt hc)
+  refine ⟨lead, t, (tapeOf l e).idx, hdrop, hty, hB, ?_, ?_, hLF⟩
   · intro p hp2
     have hcp := hcovp p (by omega) (by rw [hline]; exact hp2)
     rw [hline] at hcp
@@ -292,9 +329,7 @@ theorem runNone_chars {s0 : Str} (hlen : s0.length + 1 < 1073741824)
   · intro hb
     have hc := (hch (by omega)).toL
     rw [hst] at hc
-    refine ⟨hc, ?_⟩
-    rw [hb] at hc
-    exact TGT.none_layout hc hdrop hty
+    exact hc
 
 /-- **the link to the executable specification, one run** (R2 for runs without here-document
     body leaves and without D19): `Spec.gapsOK` -- the walker of `Spec.coverOK` -- run over the
@@ -304,12 +339,12 @@ theorem runNone_chars {s0 : Str} (hlen : s0.length + 1 < 1073741824)
     witness `time a` with `proceedonerror`), the cursor `B` of the run stayed inside the line
     (it leaves it in non-strict mode on a missing here-document, witness `cat <<E`). -/
 theorem run_gapsOK {s0 : Str} {n : Node} {ts la : List Token} {B : Nat} {st : List RedirCell}
-    (h : CharsData s0 n ts la B st) (hb : B ≤ (Tape.ofInput s0).line.length)
+    (h : CharsData s0 n ts la B st)
     (hfl : ∀ x ∈ Spec.leaves n, x.2 = false) (hne : noEmptyLeaf (Spec.leaves n) = true) :
     ∀ v ∈ Spec.gapsOK (Tape.ofInput s0).line 0 false (Spec.leaves n),
       v = "trailing-text-not-layout" := by
   obtain ⟨_, _, _, _, _, _, _, _, _, _, htile⟩ := h
-  exact TGT.gapsOK_of_tiled _ _ 0 false (htile hb hfl hne)
+  exact TGT.gapsOK_of_tiled _ _ 0 false (htile hfl hne)
 
 /-! ## the combined theorem -/
 
